@@ -15,6 +15,8 @@ SUPPORTED = ['FULLY_CONNECTED', 'BATCH_MATMUL', 'CONV_2D', 'DEPTHWISE_CONV_2D',
              'SOFTMAX', 'TANH', 'TRANSPOSE', 'GELU', 'ADD', 'SUB', 'MUL', 'MEAN',
              'RSQRT', 'CONCATENATION', 'STRIDED_SLICE', 'SPLIT', 'LOGISTIC']
 UNSUPPORTED = ['RELU', 'NEG', 'ABS', 'MAX_POOL_2D', 'EXP']
+# value distribution of generated float constants (a check may narrow it)
+CONST_KINDS = ['normal'] * 6 + ['pos', 'neg', 'tiny', 'big', 'zero']
 
 
 class ModelBuilder:
@@ -99,8 +101,7 @@ class GraphBuilder:
     if share_of is not None:   # a second tensor on an existing buffer
       src = self.g.tensors[share_of]
       return self.tensor(name, list(src.shape), FLOAT32, buffer=src.buffer)
-    kind = kind or rng.choice(['normal'] * 6 + ['pos', 'neg', 'tiny', 'big',
-                                                'zero'])
+    kind = kind or rng.choice(CONST_KINDS)
     n = int(np.prod(shape)) if len(shape) else 1
     vals = np.array([rng.gauss(0, 1) for _ in range(n)], dtype=np.float32)
     if kind == 'pos':
